@@ -18,7 +18,7 @@ def marginNs : Int := 500000000
 
 structure DSt where
   fake : Bool
-  env : Env := ⟨fun _ _ => false, fun _ => 0⟩
+  env : Env := { pred := fun _ _ => false, clock := fun _ => 0 }
   w : World Float := {}
   names : List (String × Cond) := []
   itcs : List (String × Itc) := []
@@ -214,7 +214,7 @@ def step (d : DSt) (ts : List String) : DSt × String :=
     else if op == "itcev" then
       match lookup d.itcs a with
       | some o =>
-        let r := o.eval
+        let r := o.eval d.env.ctrMod
         (touch { d with itcs := d.itcs.map (fun p => if p.1 == a then (a, r.2) else p) },
           s!"r={b01 r.1} tc={r.2.called}")
       | none => (d, "unknown")
@@ -263,7 +263,7 @@ def step (d : DSt) (ts : List String) : DSt × String :=
   | ["itcset", obj, c] =>
     match parseNat? c with
     | some c =>
-      if c < uintMod then
+      if c < counterMod then
         match lookup d.itcs obj with
         | some o => (touch { d with itcs := d.itcs.map (fun p => if p.1 == obj then (obj, { o with called := c }) else p) }, "ok")
         | none => (d, "unknown")
@@ -274,7 +274,7 @@ def step (d : DSt) (ts : List String) : DSt × String :=
     | some k =>
       match lookup d.itcs obj with
       | some o =>
-        let o' := o.spin k
+        let o' := o.spin d.env.ctrMod k
         (touch { d with itcs := d.itcs.map (fun p => if p.1 == obj then (obj, o') else p) }, s!"ok tc={o'.called}")
       | none => (d, "unknown")
     | none => (d, "bad-op")
